@@ -206,6 +206,46 @@ def check(ctx):
               has_expr('self.write_transformed_row(__TR(_row))', wr.node), 'NULL', wr.where, wr.qualname,
               'write_transformed_row(transform_row(row))', 'rows are written untransformed')
 
+    run.rule('SERL', 'SERIALIZER-LOCAL: the serializer chosen for a field depends only on that field (its type, its own format '
+                     'property) and on the class table / default - never on state written while handling earlier fields')
+    finit_ = base.methods['__init__']
+    floops = [n for n in own_nodes(finit_.node) if isinstance(n, ast.For) and u(n.iter).endswith('schema.fields')
+              and any(isinstance(x, ast.Assign) and "['serializer']" in u(x.targets[0]) for x in ast.walk(n))]
+    if len(floops) != 1:
+        raise AnalysisError('FileFormat.__init__: the loop assigning field serializers not found')
+    fl = floops[0]
+    ffacts = Facts(finit_, include_nested=False)
+    fvar = fl.target.id
+    st = [x for x in ast.walk(fl) if isinstance(x, ast.Assign) and "['serializer']" in u(x.targets[0])]
+    carried = set()
+    for x in ast.walk(fl):
+        # stores into objects that live across iterations (anything not rooted at the loop variable)
+        if isinstance(x, ast.Assign):
+            for t in x.targets:
+                if isinstance(t, ast.Subscript):
+                    b = pseudo(t.value) if pseudo(t.value) else None
+                    if b and b != fvar and not b.startswith(fvar + '.'):
+                        carried.add(b)
+        if isinstance(x, ast.Call) and isinstance(x.func, ast.Attribute) and x.func.attr in ('update', 'setdefault', 'append', 'add', 'pop'):
+            b = pseudo(x.func.value)
+            if b and b != fvar:
+                carried.add(b)
+    deps = set()
+    for x in st:
+        deps |= ffacts.roots(x.value)
+    bad = sorted(carried & deps)
+    run.check(not bad, 'SERL', where(repo, fl), finit_.qualname, 'serializer of a field depends on: ' + ', '.join(sorted(deps - {fvar}))[:150],
+              'the serializer of a field is read from %s, which is modified while earlier fields are handled: a format override of '
+              'one field leaks to later fields of the same type, which are then written in a format the descriptor does not record'
+              % ', '.join(bad))
+    # the class table lookup is by the field's own type
+    look = [c for c in ast.walk(fl) if isinstance(c, ast.Call) and isinstance(c.func, ast.Attribute) and c.func.attr == 'get'
+            and (u(c.func.value) == 'self.SERIALIZERS' or (isinstance(c.func.value, ast.Name) and any(
+                'self.SERIALIZERS' in u(v) for v in ffacts.assigns.get(c.func.value.id, []))))]
+    run.check(len(look) >= 1 and all(u(c.args[0]) == '%s.type' % fvar for c in look), 'SERL',
+              where(repo, fl), finit_.qualname, 'SERIALIZERS.get(field.type, default_serializer)',
+              'the serializer is not looked up in the class table by the field\'s own type')
+
     run.rule('R16o', 'COLUMN-ORDER: a format that writes each row as a JSON object is read back column-wise in sorted key order '
                      '(LF2) and paired by position with the stamped schema, so it must stamp the fields in sorted order, write '
                      'arrays, or otherwise normalise the order')
